@@ -463,9 +463,16 @@ fn beam_case(ctx: &Ctx, rng: &mut Rng, is128: bool, st: &mut St, case: u64) {
         }
         let at = m.clock();
         let newv = !scr[off] | 0x81;
-        m.cpu().regs.set_acc(newv);
         let a = 0x4000 + off as u16;
-        m.exec_at(0x8000, &[0x32, a as u8, (a >> 8) as u8], 1);
+        // the byte is changed either by an emulated store or by a host poke while the emulation is
+        // stopped in the middle of the frame ("however the bytes got there")
+        let by_poke = rng.chance(1, 3);
+        if by_poke {
+            m.poke(a, newv);
+        } else {
+            m.cpu().regs.set_acc(newv);
+            m.exec_at(0x8000, &[0x32, a as u8, (a >> 8) as u8], 1);
+        }
         let done = m.clock();
         let old = scr[off];
         scr[off] = newv;
@@ -484,11 +491,11 @@ fn beam_case(ctx: &Ctx, rng: &mut Rng, is128: bool, st: &mut St, case: u64) {
             st.beam_judged += 1;
         }
         if clearly_before && got_now != dec(newv) {
-            ctx.violation("canvas:beam:late", &format!("byte at offset {:04x} (line {}, col {}) stored at T={}..{}, {} T before the beam fetches it (T={}), but the frame still shows the old value", off, y, c, at, done, fetch - done, fetch), jobj! {"case"=>case,"is128"=>is128,"t_write"=>at,"fetch"=>fetch});
+            ctx.violation(if by_poke { "canvas:beam:late:poke" } else { "canvas:beam:late" }, &format!("byte at offset {:04x} (line {}, col {}) stored at T={}..{}, {} T before the beam fetches it (T={}), but the frame still shows the old value", off, y, c, at, done, fetch - done, fetch), jobj! {"case"=>case,"is128"=>is128,"t_write"=>at,"fetch"=>fetch});
             return;
         }
         if clearly_after && got_now != dec(old) {
-            ctx.violation("canvas:beam:early", &format!("byte at offset {:04x} (line {}, col {}) stored at T={}, {} T after the beam passed it (T={}), but the frame already shows the new value", off, y, c, at, at - fetch, fetch), jobj! {"case"=>case,"is128"=>is128,"t_write"=>at,"fetch"=>fetch});
+            ctx.violation(if by_poke { "canvas:beam:early:poke" } else { "canvas:beam:early" }, &format!("byte at offset {:04x} (line {}, col {}) stored at T={}, {} T after the beam passed it (T={}), but the frame already shows the new value", off, y, c, at, at - fetch, fetch), jobj! {"case"=>case,"is128"=>is128,"t_write"=>at,"fetch"=>fetch});
             return;
         }
         if got_next != dec(newv) {
